@@ -166,6 +166,11 @@ class Verdict:
     def __init__(self, pid, tier, seed):
         self.pid, self.tier, self.seed = pid, tier, seed
         self.t0 = time.time()
+        try:
+            import engine_runner
+            engine_runner.WATCH.update(pid=pid, seed=seed, tier=tier if tier in ("quick", "thorough") else "quick")
+        except Exception:
+            pass
         self.violations = []      # replay paths
         self.known_lines = []
         self.notes = []
